@@ -1,5 +1,5 @@
 (* C06 — comments: same text, emitted once by the comment converter; the parser-free core. *)
-From TV Require Import Conv Format Render RenderProofs SeqProofs ConvProofs ParenProofs CommentProofs MarkupProofs MathProofs FlowProofs ListProofs.
+From TV Require Import Conv Format Render RenderProofs SeqProofs ConvProofs ParenProofs CommentProofs MarkupProofs MathProofs FlowProofs ListProofs Sig SigTree SigScope SigConv Attr.
 
 Section Full.
   Variable parse : str -> tree.
@@ -77,3 +77,28 @@ Theorem C06_list_keeps_comments_in_place :
                    Forall2 seqs (pushed_by swidth l0 ops) xs /\ kept sty x = kept sty (concat xs).
 Proof. exact lst_process_conserves. Qed.
 Print Assumptions C06_list_keeps_comments_in_place.
+
+(* no comment is lost, duplicated or moved across a token, at any width (SigConv.v): for a tree in the scope `sc` and
+   reordering off, the text rendered at the configured width has exactly the signature of the source tree - every
+   character of every comment (and of every other token) other than blanks and the delimiters ( ) [ ] { } $ , ; : ,
+   in source order. The only reordering of a comment the formatter performs - a comment between `not` and `in` is
+   emitted before the operator - is outside `sc`. *)
+Theorem C06_no_comment_lost_or_moved_in_scope :
+  forall swidth cfg t out n,
+    reorder_import_items cfg = false -> sc (annotate t) = true ->
+    format_source swidth cfg t = FOk out n ->
+    exists d es, convert_root swidth cfg t = Ok (d, n) /\ render_events (max_width cfg) d = Some es /\
+                 out = Post.strip (flatten_events es) /\ sig (flatten_events es) = tsig t.
+Proof.
+  intros swidth cfg t out n Hr Hs H. destruct (format_output_atoms swidth cfg t out n H) as (d & es & Hc & Hre & Ho & Hq & _).
+  exists d, es. repeat split; try assumption.
+  rewrite flatten_events_sig. destruct (convert_root_conserves swidth cfg t d n Hr Hs Hc) as [Hd Hw].
+  rewrite <- Hd. apply seqs_sig; assumption.
+Qed.
+Check C06_no_comment_lost_or_moved_in_scope :
+  forall swidth cfg t out n,
+    reorder_import_items cfg = false -> sc (annotate t) = true ->
+    format_source swidth cfg t = FOk out n ->
+    exists d es, convert_root swidth cfg t = Ok (d, n) /\ render_events (max_width cfg) d = Some es /\
+                 out = Post.strip (flatten_events es) /\ sig (flatten_events es) = tsig t.
+Print Assumptions C06_no_comment_lost_or_moved_in_scope.
